@@ -851,6 +851,95 @@ fn c03_leave_early(ctx: &Ctx, case: u64, acc: &mut Acc) -> Verdict {
     Ok(())
 }
 
+/// 'farewell': what leave_cluster hands to the runtime, on packets so small that not every pending update fits.
+/// The leaver holds fresh news of several sizes (identities encode to different lengths) when it leaves. Each of
+/// its first max_transmissions farewell datagrams still has Down(self) pending when it is filled, so it may omit
+/// it only if it would not fit in the space that datagram leaves unused; and the member told by a datagram that
+/// carries it reports MemberDown in the very call that handles it.
+fn c03_farewell(ctx: &Ctx, case: u64, acc: &mut Acc) -> Verdict {
+    use crate::node::Node;
+    let mut r = Rng64::derive(ctx.seed, 0xC03F, case);
+    let me = Id::new(r.range(1, 7) as u16, r.below(2) as u8);
+    let codec = crate::gen::codec(&mut r);
+    let mut cfg = Cfg::simple();
+    cfg.mps = r.range(14, 48) as usize;
+    cfg.tx = r.range(1, 5) as u8;
+    cfg.k = r.range(1, 4) as usize;
+    let mut l = Node::new(me, cfg.clone(), codec, HdlCfg::disabled(), r.next());
+    let m = r.range(1, 6);
+    for _ in 0..m {
+        let mut a = r.range(1, 9) as u16;
+        if a == me.addr {
+            a = 9;
+        }
+        let u = Member::new(Id::new(a, r.below(2) as u8), crate::gen::small_inc(&mut r), if r.chance(1, 4) { State::Suspect } else { State::Alive });
+        let rec = l.call(Op::Apply(vec![u], true));
+        ensure!(rec.res.is_ok(), "C03/harness", "apply_many on the future leaver returned {:?}", rec.res);
+    }
+    let known = l.last.num_members;
+    // premise: every header the leaver may have to write (plus the update count) fits a packet; below that an
+    // encode error from leave_cluster is the documented outcome, not a finding
+    let widest = l.last.state.iter().map(|x| wire::encode_header(codec, &Header { src: me, src_incarnation: 0, dst: *x.id(), message: Message::Gossip }).len()).max().unwrap_or(0);
+    let rec = l.call(Op::Leave);
+    if widest + 2 > cfg.mps {
+        acc.tally("farewell_cases_packet_smaller_than_a_header", 1);
+        return Ok(());
+    }
+    ensure!(rec.res == Res::Ok, "C03/leave-error", "leave_cluster returned {:?} (max_packet_size {}, widest header {widest})", rec.res, cfg.mps);
+    ensure!(rec.has_note(&N::Defunct), "C03/leaver-not-defunct", "leave_cluster did not notify Defunct");
+    let down_self = wire::encode_member(codec, &Member::new(me, 0, State::Down));
+    let sends: Vec<(Id, Vec<u8>)> = rec.sends().map(|(t, d)| (*t, d.clone())).collect();
+    let (mut carried, mut omitted_no_room, mut told) = (0u64, 0u64, 0u64);
+    for (i, (to, d)) in sends.iter().enumerate() {
+        let p = match wire::parse(codec, d) {
+            Ok(p) => p,
+            Err(e) => {
+                ensure!(false, "C03/farewell-unparsable", "farewell datagram #{i} does not parse: {e}");
+                unreachable!()
+            }
+        };
+        ensure!(p.header.message == Message::Gossip, "C03/farewell-kind", "leave_cluster sent {:?}", p.header.message);
+        let carries = p.members.as_ref().is_some_and(|ms| ms.iter().any(|x| *x.id() == me && x.state() == State::Down));
+        if !carries {
+            if i < cfg.tx as usize {
+                let need = down_self.len() + if p.members.is_none() { 2 } else { 0 };
+                let left = cfg.mps.saturating_sub(d.len());
+                ensure!(
+                    left < need,
+                    "C03/farewell-omits-down",
+                    "farewell datagram #{i} of {} to {to:?} ({} of {} bytes used, updates {:?}) leaves out Down({me:?}) ({} bytes) although it is still pending and fits in the {left} bytes left",
+                    sends.len(),
+                    d.len(),
+                    cfg.mps,
+                    p.members,
+                    down_self.len()
+                );
+                omitted_no_room += 1;
+            }
+            continue;
+        }
+        carried += 1;
+        // the member it is told to: lists the leaver, then handles the farewell
+        let mut peer = Node::new(*to, cfg.clone(), codec, HdlCfg::disabled(), r.next());
+        let up = peer.call(Op::Apply(vec![Member::new(me, 0, State::Alive)], false));
+        ensure!(up.has_note(&N::MemberUp(me)), "C03/harness", "the peer did not list the future leaver");
+        let got = peer.call(Op::Data(d.clone()));
+        ensure!(got.res.is_ok(), "C03/farewell-rejected", "{to:?} handling the farewell returned {:?}", got.res);
+        ensure!(got.has_note(&N::MemberDown(me)), "C03/leave-not-immediate", "{to:?} handled a farewell carrying Down({me:?}) without reporting MemberDown");
+        told += 1;
+    }
+    acc.tally("farewell_cases", 1);
+    acc.tally("farewell_datagrams", sends.len() as u64);
+    acc.tally("farewells_carrying_down_self", carried);
+    acc.tally("farewells_without_room_for_down_self", omitted_no_room);
+    acc.tally("members_told_reporting_down_at_once", told);
+    if known > 0 && !sends.is_empty() {
+        acc.nontrivial(fp(&("farewell", case, cfg.mps, known, carried, omitted_no_room)));
+    }
+    acc.sample(|| json!({"workload": "farewell", "max_packet_size": cfg.mps, "known": known, "datagrams": sends.len(), "carrying_down_self": carried, "no_room": omitted_no_room}));
+    Ok(())
+}
+
 // ------------------------------------------------------------------ C04
 
 fn c04_envelope_cfg(n: usize, notify: bool) -> Cfg {
@@ -1516,13 +1605,14 @@ pub fn c03() -> Check {
     Check {
         id: "C03",
         level: "fault_enumeration",
-        rule: "per configuration (n in 2..=7 quick / 2..=10 thorough, suspect_to_down_after 2..5 periods, seeds) a formed fault-free run is rebuilt deterministically and a fault is injected after a swept number of further events (24 slots covering more than one full probe rotation of every member): singletons, pairs and random subsets up to n-1 members crash or call leave_cluster. Oracle: every survivor that listed a failed member notifies MemberDown by t_fail+(2n+1)P+S2D, no survivor is ever declared Down, recipients of a leaver's farewell report it within one latency, the leaver sends no probe traffic afterwards. Distinct by (configuration, fault slot, subset). Latency below rtt/4 or below 0.9 rtt (indirect probes of live members then complete through ForwardedAck). 'leave_early': a newcomer leaves around the arrival of its own Feed. 'staged': n up to 14 (22 thorough), all but 2..4 members crash first and, once reported, one more crashes while those Down records are still held; bound for the second failure counted from the members alive before it. Half of the staged cases forget the first wave's Down records (remove_down_after = (2n+1)P+S2D+0..3P) before the second failure.",
+        rule: "per configuration (n in 2..=7 quick / 2..=10 thorough, suspect_to_down_after 2..5 periods, seeds) a formed fault-free run is rebuilt deterministically and a fault is injected after a swept number of further events (24 slots covering more than one full probe rotation of every member): singletons, pairs and random subsets up to n-1 members crash or call leave_cluster. Oracle: every survivor that listed a failed member notifies MemberDown by t_fail+(2n+1)P+S2D, no survivor is ever declared Down, recipients of a leaver's farewell report it within one latency, the leaver sends no probe traffic afterwards. Distinct by (configuration, fault slot, subset). Latency below rtt/4 or below 0.9 rtt (indirect probes of live members then complete through ForwardedAck). 'leave_early': a newcomer leaves around the arrival of its own Feed. 'staged': n up to 14 (22 thorough), all but 2..4 members crash first and, once reported, one more crashes while those Down records are still held; bound for the second failure counted from the members alive before it. Half of the staged cases forget the first wave's Down records (remove_down_after = (2n+1)P+S2D+0..3P) before the second failure. 'farewell': a single leaver holding 1..5 fresh updates of different encoded sizes on packets of 14..47 bytes calls leave_cluster; each of its first max_transmissions farewell datagrams may omit Down(self) only if it does not fit in the space that datagram leaves unused, and the addressee (listing the leaver) reports MemberDown in the call that handles a farewell carrying it.",
         assumptions: &["latency < probe_rtt/4, timers on time; remove_down_after far beyond the horizon"],
-        required: &["crash_faults", "leave_faults"],
+        required: &["crash_faults", "leave_faults", "farewells_carrying_down_self", "members_told_reporting_down_at_once"],
         workloads: vec![
             Workload { name: "crash", f: c03_case, quick: 12_000, thorough: 240_000, flav: Flav::Checked },
             Workload { name: "leave_early", f: c03_leave_early, quick: 4_000, thorough: 80_000, flav: Flav::Checked },
             Workload { name: "staged", f: c03_staged, quick: 6_400, thorough: 60_000, flav: Flav::Checked },
+            Workload { name: "farewell", f: c03_farewell, quick: 60_000, thorough: 1_500_000, flav: Flav::Checked },
         ],
         exhaustive: false,
         aggregate: None,
